@@ -3,6 +3,13 @@
 the graph in valid SSA form (one phi per non-entry block, one input per predecessor), with arithmetic,
 a store to a global in odd blocks and data-dependent branch conditions.  Names: "ir:<n>:<t0>.<t1>..."
 where t = r | jJ | cJK.  Rendered to ppci IR text and read back by the real ppci.irutils.read_module.
+
+Extensions (added after seeds C03/C and C03/D were missed):
+ * "ir:<n>:<terms>:<flags>": one flag per block, f = filled as above, e = EMPTY (only the terminator; conditions
+   and phi inputs from such a block use the function arguments).  Shapes without any `return` are allowed here
+   (empty infinite loops, as the C front end emits for `for(;;){}`).
+ * "irh:<name>": hand-written templates with stack slots allocated OUTSIDE the entry block (conditional stores,
+   loads at loop bottoms / joins), which the C front end never produces but the IR builder API allows.
 """
 import itertools
 import random
@@ -48,6 +55,40 @@ def all_names(n):
             yield f"ir:{n}:" + ".".join(terms)
 
 
+def all_names_flagged(n):
+    """skeletons with at least one empty block; a return is not required"""
+    ch = term_choices(n)
+    for terms in itertools.product(ch, repeat=n):
+        if not reachable_all(terms):
+            continue
+        for flags in itertools.product("fe", repeat=n):
+            if "e" in flags:
+                yield f"ir:{n}:" + ".".join(terms) + ":" + "".join(flags)
+
+
+# always present (both tiers, every seed): cycles made only of jump-only blocks
+FIXED_FLAGGED = ["ir:3:c12.j2.j1:fee", "ir:3:j1.j2.j1:fee", "ir:3:c12.j2.j1:eee", "ir:4:c13.j2.j3.j1:feee",
+                 "ir:4:c12.j2.j3.j2:ffee", "ir:4:c13.j2.j1.r:feef", "ir:3:c11.j2.j2:fee", "ir:4:j1.c23.j1.j3:feee"]
+
+
+def flagged_names(tier, seed):
+    rnd = random.Random(seed * 31 + 5)
+    n2 = list(all_names_flagged(2))
+    n3 = list(all_names_flagged(3))
+    if tier == "quick":
+        return FIXED_FLAGGED + n2 + rnd.sample(n3, 40)
+    n4 = []
+    ch = term_choices(4)
+    while len(n4) < 40:
+        terms = tuple(rnd.choice(ch) for _ in range(4))
+        flags = "".join(rnd.choice("fe") for _ in range(4))
+        if reachable_all(terms) and "e" in flags:
+            nm = "ir:4:" + ".".join(terms) + ":" + flags
+            if nm not in n4:
+                n4.append(nm)
+    return FIXED_FLAGGED + n2 + rnd.sample(n3, 100) + n4
+
+
 def names(tier, seed):
     rnd = random.Random(seed)
     n2 = list(all_names(2))
@@ -66,9 +107,12 @@ def names(tier, seed):
 
 
 def source(name):
-    _, n, code = name.split(":")
-    n = int(n)
-    terms = code.split(".")
+    if name.startswith("irh:"):
+        return HAND[name[4:]]
+    parts = name.split(":")
+    n = int(parts[1])
+    terms = parts[2].split(".")
+    flags = parts[3] if len(parts) > 3 else "f" * n
     preds = {k: [] for k in range(n)}
     for i, t in enumerate(terms):
         for y in succs(t):
@@ -77,10 +121,21 @@ def source(name):
     lines = ["module m;", "global variable g (4 bytes aligned at 4)", "global function i32 f(i32 a, i32 b) {"]
     for k in range(n):
         lines.append(f"  b{k}: {{")
+        if flags[k] == "e":
+            t = terms[k]
+            if t == "r":
+                lines.append("    return a;")
+            elif t[0] == "j":
+                lines.append(f"    jmp b{t[1]};")
+            else:
+                cond = ["<", "==", ">", "!="][k % 4]
+                lines.append(f"    cjmp a {cond} b ? b{t[1]} : b{t[2]};")
+            lines.append("  }")
+            continue
         if k == 0:
             x = "a"
         else:
-            ins = ", ".join(f"b{p}: y{p}" for p in preds[k])
+            ins = ", ".join(f"b{p}: " + ("a" if flags[p] == "e" else f"y{p}") for p in preds[k])
             lines.append(f"    i32 x{k} = phi {ins};")
             x = f"x{k}"
         lines.append(f"    i32 c{k} = {k * 7 + 3};")
@@ -98,3 +153,303 @@ def source(name):
         lines.append("  }")
     lines.append("}")
     return "\n".join(lines) + "\n"
+
+
+_HDR = "module m;\nglobal variable g (4 bytes aligned at 4)\nglobal function i32 f(i32 a, i32 b) {\n"
+
+HAND = {
+    # slot allocated inside a loop body, written on one arm only, read at the loop bottom
+    "alloc_in_loop_cond_store": _HDR + """  b0: {
+    i32 zero = 0;
+    i32 one = 1;
+    i32 three = 3;
+    i32 n = a & three;
+    jmp head;
+  }
+  head: {
+    i32 i = phi b0: zero, bottom: i2;
+    i32 acc = phi b0: b, bottom: acc2;
+    cjmp i < n ? body : done;
+  }
+  body: {
+    blob<4:4> s = alloc 4 bytes aligned at 4;
+    ptr sp = &s;
+    store i, sp;
+    cjmp acc < b ? arm : bottom;
+  }
+  arm: {
+    i32 t = acc + one;
+    store t, sp;
+    jmp bottom;
+  }
+  bottom: {
+    i32 v = load sp;
+    i32 acc2 = acc + v;
+    store acc2, g;
+    i32 i2 = i + one;
+    jmp head;
+  }
+  done: {
+    return acc;
+  }
+}
+""",
+    # slot allocated in an if-arm, conditionally initialised, read only where it was written
+    "alloc_in_arm_partial_init": _HDR + """  b0: {
+    i32 one = 1;
+    cjmp a < b ? arm : other;
+  }
+  arm: {
+    blob<4:4> s = alloc 4 bytes aligned at 4;
+    ptr sp = &s;
+    cjmp a == one ? w1 : w2;
+  }
+  w1: {
+    store b, sp;
+    jmp rd;
+  }
+  w2: {
+    i32 t = a + b;
+    store t, sp;
+    jmp rd;
+  }
+  rd: {
+    i32 v = load sp;
+    store v, g;
+    jmp join;
+  }
+  other: {
+    jmp join;
+  }
+  join: {
+    i32 r = phi rd: v, other: a;
+    return r;
+  }
+}
+""",
+    # slot allocated in a loop header that is not the entry; written on a back-edge path only; read after the loop
+    "alloc_in_header_loop_carried": _HDR + """  b0: {
+    i32 zero = 0;
+    i32 one = 1;
+    i32 three = 3;
+    i32 n = a & three;
+    jmp pre;
+  }
+  pre: {
+    blob<4:4> s = alloc 4 bytes aligned at 4;
+    ptr sp = &s;
+    store b, sp;
+    jmp head;
+  }
+  head: {
+    i32 i = phi pre: zero, latch: i2;
+    cjmp i < n ? body : done;
+  }
+  body: {
+    i32 cur = load sp;
+    cjmp cur < a ? bump : latch;
+  }
+  bump: {
+    i32 nv = cur + one;
+    store nv, sp;
+    jmp latch;
+  }
+  latch: {
+    i32 i2 = i + one;
+    jmp head;
+  }
+  done: {
+    i32 r = load sp;
+    store r, g;
+    return r;
+  }
+}
+""",
+    # two slots in different non-entry blocks, one dominated by the other
+    "nested_allocs": _HDR + """  b0: {
+    i32 one = 1;
+    cjmp a < b ? outer : out;
+  }
+  outer: {
+    blob<4:4> s1 = alloc 4 bytes aligned at 4;
+    ptr p1 = &s1;
+    store a, p1;
+    cjmp b == one ? inner : after;
+  }
+  inner: {
+    blob<4:4> s2 = alloc 4 bytes aligned at 4;
+    ptr p2 = &s2;
+    i32 x = load p1;
+    store x, p2;
+    i32 y = load p2;
+    i32 z = y + one;
+    store z, p1;
+    jmp after;
+  }
+  after: {
+    i32 w = load p1;
+    store w, g;
+    return w;
+  }
+  out: {
+    return b;
+  }
+}
+""",
+    # slot allocated in the loop body, written on SOME iterations only, read at the loop bottom (the read of a
+    # never-written slot is an undefined value: structurally well-formed, C02 cuts those paths by its premise)
+    "alloc_in_loop_maybe_uninit": _HDR + """  b0: {
+    i32 zero = 0;
+    i32 one = 1;
+    i32 three = 3;
+    i32 n = a & three;
+    jmp head;
+  }
+  head: {
+    i32 i = phi b0: zero, latch: i2;
+    i32 acc = phi b0: b, latch: acc2;
+    cjmp i < n ? body : done;
+  }
+  body: {
+    blob<4:4> s = alloc 4 bytes aligned at 4;
+    ptr sp = &s;
+    i32 bit = i & one;
+    cjmp bit == zero ? set : latch;
+  }
+  set: {
+    store i, sp;
+    jmp latch;
+  }
+  latch: {
+    i32 v = load sp;
+    i32 acc2 = acc + v;
+    i32 i2 = i + one;
+    jmp head;
+  }
+  done: {
+    store acc, g;
+    return acc;
+  }
+}
+""",
+    # slot allocated in an if-arm that is also a loop header; loop-carried through the back edge
+    "alloc_in_arm_loop_carried_maybe_uninit": _HDR + """  b0: {
+    i32 zero = 0;
+    i32 one = 1;
+    i32 three = 3;
+    cjmp a < b ? arm : out;
+  }
+  arm: {
+    blob<4:4> s = alloc 4 bytes aligned at 4;
+    ptr sp = &s;
+    i32 n = a & three;
+    jmp head;
+  }
+  head: {
+    i32 i = phi arm: zero, latch: i2;
+    cjmp i < n ? body : done;
+  }
+  body: {
+    cjmp i == one ? wr : latch;
+  }
+  wr: {
+    store b, sp;
+    jmp latch;
+  }
+  latch: {
+    i32 i2 = i + one;
+    jmp head;
+  }
+  done: {
+    i32 r = load sp;
+    store r, g;
+    return r;
+  }
+  out: {
+    return b;
+  }
+}
+""",
+    # two nested loops, slot allocated in the inner loop's pre-header (inside the outer loop), read after the inner loop
+    "alloc_between_nested_loops": _HDR + """  b0: {
+    i32 zero = 0;
+    i32 one = 1;
+    i32 n = a & one;
+    jmp ohead;
+  }
+  ohead: {
+    i32 i = phi b0: zero, olatch: i2;
+    i32 acc = phi b0: b, olatch: acc2;
+    cjmp i <= n ? pre : done;
+  }
+  pre: {
+    blob<4:4> s = alloc 4 bytes aligned at 4;
+    ptr sp = &s;
+    jmp ihead;
+  }
+  ihead: {
+    i32 j = phi pre: zero, ilatch: j2;
+    cjmp j <= i ? ibody : olatch;
+  }
+  ibody: {
+    cjmp j == zero ? iset : ilatch;
+  }
+  iset: {
+    store acc, sp;
+    jmp ilatch;
+  }
+  ilatch: {
+    i32 j2 = j + one;
+    jmp ihead;
+  }
+  olatch: {
+    i32 v = load sp;
+    i32 acc2 = v + one;
+    i32 i2 = i + one;
+    jmp ohead;
+  }
+  done: {
+    store acc, g;
+    return acc;
+  }
+}
+""",
+    # empty infinite loop of two jump-only blocks behind a condition (C: if (a) for(;;){})
+    "spin2_behind_if": _HDR + """  b0: {
+    cjmp a < b ? spin : out;
+  }
+  spin: {
+    jmp spin2;
+  }
+  spin2: {
+    jmp spin;
+  }
+  out: {
+    return a;
+  }
+}
+""",
+    # three jump-only blocks in a cycle entered in the middle
+    "spin3_entered_in_middle": _HDR + """  b0: {
+    cjmp a == b ? s2 : out;
+  }
+  s1: {
+    jmp s2;
+  }
+  s2: {
+    jmp s3;
+  }
+  s3: {
+    jmp s1;
+  }
+  out: {
+    store a, g;
+    return b;
+  }
+}
+""",
+}
+
+
+def hand_names():
+    return ["irh:" + k for k in HAND]
